@@ -83,3 +83,17 @@ def build2(m):
                    ghost_after={'self._suppress_ptag_stack.append(not token.loose)': [
                        ('__assert__', ('self._suppress_ptag_stack[len(self._suppress_ptag_stack) - 1] == (not token.loose)', ['C03', 'C02']))]},
                    modifies=['self._suppress_ptag_stack'], options={'restores': True}, prop=['C02', 'C03', 'C08']))
+
+
+def build3(m):
+    """HtmlRenderer.render_quote: paragraphs inside a block quote keep their <p> tags even inside a
+    tight list (the flag pushed is False) and the suppress stack is balanced (C03, C08)."""
+    HMOD = 'mistletoe.html_renderer'
+    R = TRef('HtmlR')
+    QT = TRef('HQuoteTok')
+    m.classes['HQuoteTok'] = {'children': TList(TRef('RTok'))}
+    m.add(Contract(HMOD + ':HtmlRenderer.render_quote', [('self', R), ('token', QT)], returns=STR,
+                   ghost_after={'self._suppress_ptag_stack.append(False)': [
+                       ('__assert__', ('not self._suppress_ptag_stack[len(self._suppress_ptag_stack) - 1]', ['C03', 'C02']))]},
+                   body_types={'elements': TList(STR)},
+                   modifies=['self._suppress_ptag_stack'], options={'restores': True, 'concat_axioms': True}, prop=['C03', 'C08']))
